@@ -133,7 +133,9 @@ MIN_EVALS = {'quick': {'npts': 120000, 'dt==round4(saved)': 120000, 'values==m*r
                           'earlier-result-intact-after-later-call': 1500000,
                           'returned-objects-share-no-memory': 1000000, 'block-boundary-record(4095..65536).reload': 300,
                           'refused-save.leaves-previous-record': 29000, 'A;B;A.third==first': 12000,
-                          'loaded-object.copy/deepcopy/pickle==loaded': 11000}}
+                          'loaded-object.copy/deepcopy/pickle==loaded': 11000,
+                          'label==saved(true flag that is not a Python bool)': 240000, 'dt-given-as-0-d-array.reload': 24000,
+                          'dt-given-as-numpy-scalar.reload': 60000, 'm-given-as-numpy-scalar|0-d-array': 200000}}
 
 CTX = None
 REG = {}        # realpath -> {'saved': op dict of the last successful save (None = unknown), 'pid': int, 'n_saves': int}
